@@ -13,6 +13,27 @@ func (ctx context) generatePrimaryTable(ta sql.Table, cols columnsCode) []gen.De
 	goTypeName := ta.TableName()
 	sqlTableName := gen.SQLTableName(goTypeName)
 
+	primaryFieldName := ta.Columns[primaryIndex].Field.Field.Name()
+	insertCall := fmt.Sprintf("`"+`INSERT INTO %[1]s (
+		%[2]s
+		) VALUES (
+		%[3]s
+		) RETURNING %[5]s;
+		`+"`,"+`%[4]s`, sqlTableName,
+		cols.sqlColumnNamesNoPrimary, cols.sqlPlaceholdersNoPrimary, cols.goValueFieldsNoPrimary, cols.sqlColumnNames)
+	updateCall := fmt.Sprintf("`"+`UPDATE %[1]s SET (
+		%[2]s
+		) = (
+		%[3]s
+		) WHERE id = $%[6]d RETURNING %[5]s;
+		`+"`,"+`%[4]s, item.%[7]s`, sqlTableName,
+		cols.sqlColumnNamesNoPrimary, cols.sqlPlaceholdersNoPrimary, cols.goValueFieldsNoPrimary, cols.sqlColumnNames,
+		cols.columnsCount, primaryFieldName)
+	if cols.sqlColumnNamesNoPrimary == "" { // the ID is the only column to write
+		insertCall = fmt.Sprintf("`INSERT INTO %s DEFAULT VALUES RETURNING %s;`", sqlTableName, cols.sqlColumnNames)
+		updateCall = fmt.Sprintf("`SELECT %s FROM %s WHERE id = $1;`, item.%s", cols.sqlColumnNames, sqlTableName, primaryFieldName)
+	}
+
 	content := fmt.Sprintf(`
 func scanOne%[1]s(row scanner) (%[1]s, error) {
 	var item %[1]s
@@ -85,23 +106,13 @@ func Scan%[1]ss(rs *sql.Rows) (%[1]ss, error) {
 
 // Insert one %[1]s in the database and returns the item with id filled.
 func (item %[1]s) Insert(tx DB) (out %[1]s, err error) {
-	row := tx.QueryRow(`+"`"+`INSERT INTO %[3]s (
-		%[5]s
-		) VALUES (
-		%[6]s
-		) RETURNING %[10]s;
-		`+"`,"+`%[7]s)
+	row := tx.QueryRow(%[11]s)
 	return Scan%[1]s(row)
 }
 
 // Update %[1]s in the database and returns the new version.
 func (item %[1]s) Update(tx DB) (out %[1]s, err error) {
-	row := tx.QueryRow(`+"`"+`UPDATE %[3]s SET (
-		%[5]s
-		) = (
-		%[6]s
-		) WHERE id = $%[8]d RETURNING %[10]s;
-		`+"`,"+`%[7]s, item.%[9]s)
+	row := tx.QueryRow(%[12]s)
 	return Scan%[1]s(row)
 }
 
@@ -123,6 +134,7 @@ func Delete%[1]ssByIDs(tx DB, ids ...%[2]s) ([]%[2]s, error) {
 		cols.goScanFields, cols.sqlColumnNamesNoPrimary, cols.sqlPlaceholdersNoPrimary, cols.goValueFieldsNoPrimary,
 		cols.columnsCount, ta.Columns[primaryIndex].Field.Field.Name(),
 		cols.sqlColumnNames,
+		insertCall, updateCall,
 	)
 
 	var out []gen.Declaration
